@@ -224,7 +224,8 @@ def gen_program(rng: random.Random, n_ops: int, *, residuals: int = 2, wrappers:
             cur = nvals() - 1
 
     def unary(src: int) -> int:
-        choices = ["linear", "linear_kw", "linear_nb", "linear_none", "matmul", "layer_norm"] + ELEMENTWISE_MAPPED + UNMAPPED
+        choices = ["linear", "linear_kw", "linear_nb", "linear_none", "matmul", "layer_norm", "mlp", "mlp"] + \
+            ELEMENTWISE_MAPPED + UNMAPPED
         if wrappers:
             choices += ["nn.Linear", "nn.LayerNorm", "nn.GELU", "nn.Softmax"]
         if attention:
@@ -234,7 +235,18 @@ def gen_program(rng: random.Random, n_ops: int, *, residuals: int = 2, wrappers:
         if nonfloat:
             choices += ["argmax_gather"]
         k = rng.choice(choices)
-        if k in ("linear", "linear_kw"):
+        if k == "mlp":
+            # rectangular projections (fan_in != fan_out): up to width H2, an optional activation, back down to H
+            H2 = rng.choice([2 * H, H // 2, 3 * H])
+            for (fo, fi) in ((H2, H), (H, H2)):
+                kk_ = rng.choice(["linear", "linear_kw", "linear_nb", "linear_none"])
+                pp = {"w": new_param("w", (fo, fi))}
+                if kk_ in ("linear", "linear_kw"):
+                    pp["b"] = new_param("b", (fo,))
+                ops.append(Op(kk_, [src if fi == H else nvals() - 1], pp))
+                if fo == H2 and rng.random() < 0.6:
+                    ops.append(Op(rng.choice(["gelu", "silu", "tanh", "relu"]), [nvals() - 1]))
+        elif k in ("linear", "linear_kw"):
             ops.append(Op(k, [src], {"w": new_param("w", (H, H)), "b": new_param("b", (H,))}))
         elif k in ("linear_nb", "linear_none"):
             ops.append(Op(k, [src], {"w": new_param("w", (H, H))}))
